@@ -3,7 +3,7 @@ import ast
 import os
 
 from .. import native, rows
-from ..core import AnalysisError, U, path_facts, paths_of, positional_params
+from ..core import AnalysisError, U, bind_call, path_facts, paths_of, positional_params
 from ..registries import library
 from ..rows import RT, RowError, RowInterp, RowUnknown
 
@@ -114,9 +114,26 @@ def run(chk):
     chk.extra["row_mode_instances"] = n_inst
     chk.extra["exhaustive"] = False
     # trailing shape of the allocation
-    src_txt = U(pw)
-    ok_shape = "packed_tensor_shape = (row_dim, *original_shape[1:])" in src_txt and "packed_tensor_shape = (row_dim,)" in src_txt
-    chk.require("C04.R3", f"{mp.rel}:{pw.lineno}", ok_shape, "pack_weights keeps the trailing dims of the source in the allocation", "pack_weights", "trailing shape", "tensors of rank >= 2: payload allocated with another trailing shape")
+    ok_shape = True
+    detail = []
+    for rest in ("rest", None):
+        try:
+            src = RT.source(5, 4)
+            src.rest = rest
+            ri = RowInterp(pw, {tparam: src, bparam: 4})
+            out = ri.run()
+            shp = getattr(out, "alloc_shape", None)
+            want = (3, "rest") if rest is not None else (3,)
+            detail.append(f"{'N-D' if rest else '1-D'} source -> allocation {shp}")
+            if tuple(shp) != want:
+                ok_shape = False
+        except (RowError, RowUnknown) as e:
+            ok_shape = None
+            detail.append(str(e))
+    if ok_shape is None:
+        chk.unknown("C04.R3", f"{mp.rel}:{pw.lineno}", f"pack_weights allocation shape: {detail}")
+    else:
+        chk.require("C04.R3", f"{mp.rel}:{pw.lineno}", ok_shape, f"pack_weights keeps the trailing dims of the source in the allocation ({'; '.join(detail)})", "pack_weights", "trailing shape", "tensors of rank >= 2 (or vectors): payload allocated with another trailing shape")
     packed_tensor_rules(chk)
     router_rules(chk)
     chk.assume("a compiled kernel matches its source (sources are matched, not compiled)", "torch's bit operators on uint8 and slicing/cat along dim 0", "values fit in `bits` bits (precondition of the packer, established by the clamp of the affine quantizer: C02.R1)")
@@ -160,7 +177,8 @@ def packed_tensor_rules(chk):
         from ..core import CanonStr
         et = CanonStr(U(e).replace("torch.utils._pytree.", "pytree."))
         if et.startswith("PackedTensor("):
-            a = [U(x) for x in e.args]
+            b_ = bind_call(repo.method(ci, "__init__")[1], e, skip_first=1)
+            a = [U(b_[k_]) for k_ in ("data", "bits", "size", "stride")] if b_ else [U(x) for x in e.args]
             t0 = f"{args}[0]"
             is_detach = f.get(f"{op}.overloadpacket is torch.ops.aten.detach") is True
             want_data = f"{op}({t0}._data)" if is_detach else f"{op}({t0}._data, **{kwargs})"
@@ -196,7 +214,11 @@ def router_rules(chk):
     guard = [n for n in ast.walk(impl) if isinstance(n, ast.If) and U(n.test) == "_ext_enabled"]
     chk.require("C04.R6", f"{mi.rel}:{impl.lineno}", ok and ok_try and len(guard) == 1 and ok_deco, f"router: quanto::<op> tries quanto_ext::<op>(*args, **kwargs) when extensions are enabled, falls back to quanto_py::<op>(*args, **kwargs) (returns {texts})", "define.impl", "router forwarding", "any torch.ops.quanto call: arguments dropped, or an extension failure is not recovered by the python implementation")
     libs = [n for n in ast.walk(define) if isinstance(n, ast.For)]
-    ok_libs = len(libs) >= 1 and U(libs[0].iter) in ("['quanto', 'quanto_py', 'quanto_ext']", "('quanto', 'quanto_py', 'quanto_ext')")
+    it = libs[0].iter if libs else None
+    if isinstance(it, ast.Name):
+        from ..core import module_lookup
+        it = module_lookup(define, it.id) or it
+    ok_libs = isinstance(it, (ast.List, ast.Tuple)) and sorted(x.value for x in it.elts if isinstance(x, ast.Constant)) == ["quanto", "quanto_ext", "quanto_py"]
     chk.require("C04.R6", f"{mi.rel}:{define.lineno}", ok_libs, "define() declares the op in quanto, quanto_py and quanto_ext", "define", "three libraries", "an op without a python or extension slot")
     _, impls = library(repo)
     n = 0
